@@ -26,6 +26,10 @@ func init() {
 			c.Add(&Job{Label: fmt.Sprintf("ResultSet/%s,lints=%d", kindNames[kind], k), Pkg: rootPkg, Func: "VerifC01ResultSet", MustCover: []string{"result set"}, PanicsAreFindings: true,
 				Tune: func(cf *Config) { cf.Bounds["param:fw.kind"], cf.Bounds["param:fw.k"] = kind, k; scopeStubs(cf) }})
 		}
+		c.Add(&Job{Label: "ResultSet/certificate,lints=2,sources symbolic (scope gates fire)", Pkg: rootPkg, Func: "VerifC01ResultSet", MustCover: []string{"result set"}, PanicsAreFindings: true,
+			Tune: func(cf *Config) {
+				cf.Bounds["param:fw.kind"], cf.Bounds["param:fw.k"], cf.Bounds["param:fw.scoped"], cf.Bounds["param:fw.outofscope"] = 0, 2, 1, 1
+			}})
 		c.Add(&Job{Pkg: rootPkg, Func: "VerifC01Guards", MustCover: []string{"guards"}})
 	}
 }
@@ -45,6 +49,11 @@ func init() {
 		cert := []string{"out of scope", "does not apply", "not effective", "body panics", "body verdict"}
 		other := []string{"does not apply", "not effective", "body verdict"}
 		addOrderJobs(c, "C04", map[int][]string{0: cert, 1: other, 2: other})
+		for kind := 0; kind < 3; kind++ {
+			kind := kind
+			c.Add(&Job{Label: "ConfigOrder/" + kindNames[kind], Pkg: rootPkg, Func: "VerifC04ConfigOrder", MustCover: []string{"configuration error", "configured, does not apply", "configured and run"}, PanicsAreFindings: true,
+				Tune: func(cf *Config) { cf.Bounds["param:fw.kind"] = kind; scopeStubs(cf) }})
+		}
 		scope := func(cf *Config) {
 			for _, m := range []string{"github.com/zmap/zlint/v3/util.c04Is", "github.com/zmap/zlint/v3/util.c04HasPrefix", "(github.com/zmap/zcrypto/encoding/asn1.ObjectIdentifier).Equal"} {
 				cf.Merge[m] = true
@@ -88,7 +97,7 @@ func init() {
 		c.Assume("documents: empty, unrelated section, another lint's section, unknown key, well-typed options, ill-typed value (string, float), scalar / string / array where a table is expected, array of tables")
 		for kind := 0; kind < 3; kind++ {
 			kind := kind
-			c.Add(&Job{Label: "Config/" + kindNames[kind], Pkg: rootPkg, Func: "VerifC11Config", MustCover: []string{"unrelated or empty configuration", "option set", "section cannot be applied"}, PanicsAreFindings: true,
+			c.Add(&Job{Label: "Config/" + kindNames[kind], Pkg: rootPkg, Func: "VerifC11Config", MustCover: []string{"unrelated or empty configuration", "option set", "section cannot be applied", "configurable lint does not apply"}, PanicsAreFindings: true,
 				Tune: func(cf *Config) { cf.Bounds["param:fw.kind"] = kind; scopeStubs(cf) }})
 		}
 	}
